@@ -343,6 +343,7 @@ for _n in ["c16_a32", "c16_t32_aligned", "c16_t32_unaligned"]:
     H(_n, module="verif_arm.rs", props=["C16"], fns=_ARM_FNS, min_obligations=9)
 H("c16_bool", module="verif_arm.rs", props=["C16", "C10"], fns=_ARM_FNS)
 H("c16_again", module="verif_arm.rs", props=["C16", "C02"], fns=_ARM_FNS)
+H("c13_arm_args", module="verif_arm.rs", props=["C13"], fns=_ARM_FNS, covers=["COVER:end", "COVER:thumb", "COVER:arm"])
 H("c16_bool_modular", module="verif_arm.rs", props=["C10", "C16"], fns=_ARM_FNS, covers=["COVER:end", "COVER:true"])
 H("c01_dispatch_arm", module="verif_arm.rs", variant="arch_arm", props=["C01", "C16", "C10"], fns=[(INT, "will_execute_guard"), (INT, "will_return_boolean_guard")] + _ARM_FNS, covers=["COVER:end", "COVER:bool", "COVER:raw"])
 
@@ -510,6 +511,8 @@ H("c02_order_async_refake", props=["C02", "C14", "C12"], fns=_INJ_FNS + _ASYNC_F
   bounded="one history: fake / unchecked re-fake / re-fake of the same async function (K=3), core replaced by a tagging recorder", **_MODS_INJ)
 H("c02_order_sync_flavours", props=["C02", "C12"], fns=_INJ_FNS, shared=_FL_SHARED, timeout=400,
   bounded="one history: the same target through each of the four synchronous installation calls (K=4), core replaced by tagging recorders", **_MODS_INJ)
+H("c02_order_bool_refake", props=["C02", "C12", "C10"], fns=_INJ_FNS, shared=_FL_SHARED, timeout=400, covers=["COVER:end", "COVER:same-value-after-other-fake"],
+  bounded="histories of length 3 on one target: forced boolean / (other boolean | replacement) / forced boolean, values symbolic; core replaced by tagging recorders", **_MODS_INJ)
 H("c02_order_async_refake2", props=["C02", "C14", "C12"], fns=_INJ_FNS + _ASYNC_FNS, shared=_FL_SHARED, timeout=600,
   bounded="one history: the same async function faked twice (K=2), core replaced by a tagging recorder", **_MODS_INJ)
 for _h in ("c02_order_async_refake", "c02_order_async_refake2"):
